@@ -766,7 +766,9 @@ theorem readlines_returns_exactly_n (s : Src) (k : Nat) :
 example : ((Src.seek [123, 13, 125, 10, 123, 125, 13, 10, 120] 0).readlines 2).1 = [[123, 13, 125, 10], [123, 125, 13, 10]] ∧
     ((Src.seek [123, 13, 125, 10, 123, 125, 13, 10, 120] 0).readlines 2).2.pos = 8 := by decide
 
-/-- what `prepare_file_offset_table` returns as the code runs it (text mode, universal newlines): the number of
+/-- (pinned: the pass as the code ran it before the repair 2a8dc4a, which reads with `newline="\n"`; on files without a bare CR
+    both passes agree, `skip_with_text_table_eq_linear`)
+    what `prepare_file_offset_table` returned as the code ran it (text mode, universal newlines): the number of
     TEXT-mode lines -/
 theorem prepare_counts_text_lines (every : Nat) (bs : List Byte) :
     (prepareOffsetTableText every bs).2 = (textLines bs).length := by
